@@ -27,6 +27,21 @@ pub fn run(n: u64, seed: u64) -> Result<String, String> {
             return Err(format!("range-encoder witness {}: low never equals {:#x} at a shift", i, target));
         }
     }
+    // likewise the direct-bit witnesses: the range register still reaches the value,
+    // and liblzma decodes the stream to the model's output
+    for (i, w) in gen::DIRECT_BIT_WITNESSES.iter().enumerate() {
+        let (props, dict, payload, expect, mask) = crate::rcsearch::build_db_witness(w.0, w.1, true);
+        if mask & (1 << w.2) == 0 {
+            return Err(format!("direct-bit witness {}: the range register never holds {:#x} before a direct bit", i, crate::refmodel::codec::DIRECT_BIT_WATCH[w.2 as usize]));
+        }
+        let mut file = crate::refmodel::container::lzma_header(props, dict as u32, Some(u64::MAX));
+        file.extend_from_slice(&payload);
+        match lzma::decompress(&file) {
+            Ok(out) if out == expect => {}
+            Ok(out) => return Err(format!("direct-bit witness {}: liblzma decodes {} bytes, the model has {}", i, out.len(), expect.len())),
+            Err(e) => return Err(format!("direct-bit witness {}: liblzma refuses it: {:?}", i, e)),
+        }
+    }
     let mut lib_lzma = 0u64;
     let mut lib_xz = 0u64;
     let mut ref_rt = 0u64;
